@@ -274,12 +274,14 @@ fn arb_value_with(number: BoxedStrategy<String>, dups: bool, token_rate: u32) ->
 		3 => gen::arb_string().prop_map(RefValue::Str),
 	];
 	let key = prop_oneof![20 => gen::arb_key(dups), token_rate => Just(TOKEN.to_string())];
-	let s = leaf.prop_recursive(4, 48, 6, move |inner| {
+	let wide = proptest::collection::vec((prop_oneof![3 => gen::arb_long_key(), 1 => gen::arb_key(dups)], leaf.clone()), 9..90).prop_map(RefValue::Obj);
+	let tree = leaf.prop_recursive(4, 48, 6, move |inner| {
 		prop_oneof![
 			1 => proptest::collection::vec(inner.clone(), 0..=5).prop_map(RefValue::Arr),
 			2 => proptest::collection::vec((key.clone(), inner), 0..=6).prop_map(RefValue::Obj),
 		]
 	});
+	let s = prop_oneof![8 => tree, 1 => wide.clone(), 1 => proptest::collection::vec(wide, 1..4).prop_map(RefValue::Arr)];
 	if dups {
 		s.boxed()
 	} else {
